@@ -172,7 +172,9 @@ class Gen:
                 prog["inner"][iname] = ip
                 nreq = len(ip["params"]) - len(ip["defaults"])
                 na = rng.randint(nreq, len(ip["params"]))
+                bad_now[0] = bad_ok and not flagged
                 args = [pick() for _ in range(na)]
+                bad_now[0] = bad_ok
                 st = dict(op="dag", name=iname, args=args, active=None, t=[])
                 if flagged:
                     st["active"] = pick(for_flag=True)
@@ -275,11 +277,13 @@ class Gen:
         elif rk < 0.3:
             prog["ret"] = ["single", [rpick()]]
         elif rk < 0.6:
-            prog["ret"] = ["tuple", [rpick() for _ in range(rng.randint(1, 4))]]
+            # (an inner DAG nested only for its effects may return an EMPTY tuple / list / dict: still a container, not "nothing")
+            empty = rng.random() < f.get("empty_returns", 0.06)
+            prog["ret"] = ["tuple", [rpick() for _ in range(0 if empty else rng.randint(1, 4))]]
         elif rk < 0.8:
-            prog["ret"] = ["list", [rpick() for _ in range(rng.randint(1 if is_inner else 0, 3))]]
+            prog["ret"] = ["list", [rpick() for _ in range(0 if rng.random() < f.get("empty_returns", 0.06) else rng.randint(1 if is_inner else 0, 3))]]
         else:
-            prog["ret"] = ["dict", {"r%d" % j: rpick() for j in range(rng.randint(1, 3))}]
+            prog["ret"] = ["dict", {"r%d" % j: rpick() for j in range(0 if rng.random() < f.get("empty_returns", 0.06) else rng.randint(1, 3))}]
         return prog
 
 
